@@ -15,6 +15,7 @@ import (
 	"errors"
 	"fmt"
 	"math/rand"
+	"os"
 	"runtime"
 	"sort"
 	"strings"
@@ -846,11 +847,15 @@ func TestC28(t *testing.T) {
 	rueidis.VerifSetQueueType("flowbuffer")
 	defer rueidis.VerifSetQueueType("")
 	cbs := combos()
-	reps := run.N(5, 60)
+	reps := run.N(10, 150)
 	base := run.Rand("cases").Int63()
 	id := 0
 	for rep := 0; rep < reps; rep++ {
 		for ci, cb := range cbs {
+			if f := os.Getenv("VERIF_C28_ONLY"); f != "" && !strings.HasPrefix(cb.mode+"."+cb.api, f) { // debugging aid: restrict to one mode.api
+				id++
+				continue
+			}
 			r := rand.New(rand.NewSource(base + int64(rep)*1000003 + int64(ci)*7919))
 			w := &world{run: run, t: t, id: id, sc: genScen(r, cb), rng: r}
 			id++
